@@ -237,10 +237,15 @@ class LazyList:
 
         ctx.stacks.append(self.generated)
         vy_print("⟨ " if ctx.vyxal_lists else "[", "", ctx=ctx)
-        for lhs in self.generated[:-1]:
-            vy_print(lhs, " | " if ctx.vyxal_lists else ", ", ctx=ctx)
-        if self.generated:
-            vy_print(self.generated[-1], "", ctx=ctx)
+        # items generated earlier are written like the new ones below:
+        # as vy_repr writes them (a string keeps its quotes)
+        for index, lhs in enumerate(self.generated[:]):
+            if index:
+                vy_print(" | " if ctx.vyxal_lists else ", ", "", ctx=ctx)
+            if isinstance(lhs, (types.FunctionType, LazyList)):
+                vy_print(lhs, "", ctx=ctx)
+            else:
+                vy_print(vy_repr(lhs, ctx), "", ctx=ctx)
 
         try:
             lhs = next(self)
